@@ -112,6 +112,11 @@ video_sink_start(struct video_sink_s* self)
            device_state_as_string(storage_get_state(self->storage)));
 
     channel_accept_writes(&self->in, 1);
+    // Register this sink's reader before any frame can be written: a reader
+    // that joins later starts at the beginning of the writer's current lap and
+    // misses whatever earlier laps held.
+    channel_read_map(&self->in, &self->reader);
+    channel_read_unmap(&self->in, &self->reader, 0);
     self->is_stopping = 0;
     self->is_running = 1;
     CHECK(
